@@ -8,20 +8,20 @@ ID = 'C06'
 LEVEL = 'fault_enumeration'
 INJECT = True
 RULE = ('case = (persistent worker class, 0-5 items of which one may be a poison item that makes the target raise, close or not, ending {graceful terminate at the '
-        'n-th traced line of the child loop, SIGKILL/SIGTERM at the n-th line (process/remote), own end}, results pipe {default, caller-supplied Pipe() as the '
+        'n-th traced line of the child loop, SIGKILL/SIGTERM at the n-th line (process/remote), own end, SIGKILL of the remote child while the parent-side forwarding thread is held at its m-th traced line}, results pipe {default, caller-supplied Pipe() as the '
         'Pool does}). Oracle: the values read after death are exactly E[:k] of the expected sequence; next_result() then raises queue.Empty and results_iter() '
         'stops (blocking is the violation); on a supplied pipe a multiplexing reader gets an end marker or EOF and the raw counters are 1..k; a worker that ended '
         'by its own choice delivered all of E. Non-trivial = landing confirmed and >=1 item enqueued; distinct = distinct (kind, items, close, pipe, ending, n).')
-ASSUMPTIONS = ['line-level landing points in the work thread of the child; the parent-side forwarding thread is not traced',
+ASSUMPTIONS = ['line-level landing points in the work thread of the child; the parent-side forwarding thread of the remote kind is paused at a generated line while the child is SIGKILLed',
                'expected sequence E = target applied to the items up to the first poison item']
 SHRINK = 'none'
 TIME_BUDGET = {'quick': 170, 'thorough': 1700}
-REQUIRED = {'quick': {'landed_with_items': 150, 'land:_send_result': 10, 'land:_cleanup': 5, 'pipe:supplied': 100, 'mode:kill': 40},
+REQUIRED = {'quick': {'landed_with_items': 150, 'land:_send_result': 10, 'land:_cleanup': 5, 'pipe:supplied': 100, 'mode:kill': 40, 'land:forwarding_thread': 60},
             'thorough': {'landed_with_items': 1500, 'land:_send_result': 100, 'land:_cleanup': 50}}
 
 
 def examples(tier):
-    return 900 if tier == 'quick' else 8000
+    return 1100 if tier == 'quick' else 8000
 
 
 def shards(tier):
@@ -32,6 +32,14 @@ _items = st.lists(st.sampled_from([1, 2, 3, 4, 'POISON']), max_size=5)
 
 
 def strategy(tier):
+    fwd = st.fixed_dictionaries({
+        'kind': st.just('p_remote'), 'scenario': st.just('persist'), 'items': st.lists(st.sampled_from([1, 2, 3, 4]), min_size=1, max_size=5),
+        'close': st.booleans(), 'pipe': st.sampled_from(['default', 'supplied']), 'inject': st.just({'mode': 'none'}),
+        'front': st.fixed_dictionaries({'mode': st.just('pause'), 'n_raw': st.integers(0, 900)})})
+    return st.one_of(_child_strategy(), _child_strategy(), _child_strategy(), fwd)
+
+
+def _child_strategy():
     return st.fixed_dictionaries({
         'kind': st.sampled_from(IC.PERSISTENT), 'scenario': st.just('persist'), 'items': _items, 'close': st.booleans(),
         'pipe': st.sampled_from(['default', 'supplied']),
@@ -55,13 +63,31 @@ def exhaustive(tier, shard, nshards):
                         yield {'kind': kind, 'scenario': 'persist', 'items': items, 'close': True, 'pipe': pipe, 'inject': {'mode': 'terminate', 'n_index': k}}
 
 
+def _front_census(case, ctx):
+    key = ('front', tuple(case['items']), bool(case.get('close')))
+    cache = ctx.data.setdefault('census', {})
+    if key not in cache:
+        c = dict(case, inject={'mode': 'none'}, front={'mode': 'census'}, close=True, observe=[])
+        obs = IC.execute(c, ctx)
+        cache[key] = obs.get('front_trace') or []
+    return cache[key]
+
+
 def run_case(case, ctx):
     out = Out()
     inj = dict(case['inject'])
     kind = case['kind']
     mode = inj['mode']
     c = dict(case, observe=['has_error', 'result'])
-    if mode == 'none':
+    if case.get('front'):
+        tr = _front_census(case, ctx)
+        cand = [e[0] for e in tr if e[2] in ('_fetch_results', 'recv_msg', '_recv_exactly', 'put') or e[1] == 'persistent_remote.py']
+        if not cand:
+            out.excluded = 'empty census of the forwarding thread'
+            return out
+        c['front'] = {'mode': 'pause', 'n': cand[case['front']['n_raw'] % len(cand)]}
+        mode = 'front_pause'
+    elif mode == 'none':
         c['close'] = True     # own end: close and wait
     if mode in ('terminate', 'kill'):
         if mode == 'kill' and kind.endswith('thread'):
@@ -85,7 +111,13 @@ def run_case(case, ctx):
         out.excluded = 'constructor did not return a worker: ' + obs['ctor'][:60]
         return out
     reached = obs.get('reached')
-    site = (mode + '@' + IC.region_of(reached)) if mode != 'none' else 'own_end:' + kind
+    if mode == 'front_pause':
+        fr = obs.get('front_reached')
+        site = 'child_killed_while_forwarding_thread_paused@' + (f"{fr['file']}:{fr['func']}" if fr else 'not_reached')
+        if fr:
+            out.label('land:forwarding_thread')
+    else:
+        site = (mode + '@' + IC.region_of(reached)) if mode != 'none' else 'own_end:' + kind
     out.label('kind:' + kind, 'mode:' + mode, 'pipe:' + case['pipe'])
     items = case['items']
     if reached and items:
@@ -95,7 +127,7 @@ def run_case(case, ctx):
                 out.label('land:' + fn)
         if 'handler' in IC.region_of(reached):
             out.label('land:handler')
-    out.nontrivial = bool(reached and items) or (mode == 'none' and bool(items))
+    out.nontrivial = bool(reached and items) or (mode == 'none' and bool(items)) or (mode == 'front_pause' and bool(obs.get('front_reached')))
     out.key = {'kind': kind, 'items': items, 'close': c.get('close'), 'pipe': case['pipe'], 'mode': mode, 'n': inj.get('n'), 'sig': inj.get('sig')}
     if not obs['dead']:
         out.label('not_dead')
